@@ -1244,7 +1244,7 @@ void op_SUBREGION(World& w, const Op& op)
 // ----------------------------------------------------------------- harness --
 void op_LOCATE(World& w, const Op& op)
 {
-   if (w.stmts.empty() || w.flags.fill_at_creation) return;   // stamping a location is a client assignment
+   if (w.stmts.empty() || w.flags.fill_at_creation || w.flags.no_locate) return;   // stamping a location is a client assignment
    auto& h = World::pick(w.stmts, op.a);
    if (!h.src) return;
    // values whose decimal, octal and hexadecimal renderings differ (>= 8)
@@ -1257,6 +1257,11 @@ void op_LOCATE(World& w, const Op& op)
    }
    if (auto r = w.rec_for(static_cast<const Node*>(h.stmt)))
       r->exp("source_location", Val::list({U(8u + op.b), U(8u + op.c * 7u), U(op.d % 4 ? 8u + op.d : 0u)}));
+   {
+      std::string t = "F" + std::to_string(8u + op.b) + ":" + std::to_string(8u + op.c * 7u);
+      w.stamped_locations.insert(t);
+      if (op.d % 4) w.stamped_locations.insert(t + ":" + std::to_string(8u + op.d));
+   }
    w.findings.count("located_statements");
    w.note("locate");
 }
